@@ -47,6 +47,9 @@ mod real;
 mod topology;
 mod work_share;
 
+#[cfg(feature = "coupe_verif")]
+pub mod verif;
+
 pub use crate::algorithms::*;
 pub use crate::average::Average;
 pub use crate::cartesian::*;
